@@ -26,7 +26,7 @@ DepthBound == TLCGet("level") <= MaxDepth
 ASSUME PrintT("META " \o ToJson([DefaultLife |-> DefaultLife, PermTO |-> PermTO, ChanTO |-> ChanTO,
                                  MaxLife |-> MaxLife, Strict |-> Strict, Denied |-> Denied, Fam |-> Fam,
                                  ListenFam |-> ListenFam, Clients |-> Clients, Users |-> Users,
-                                 PeerPorts |-> PeerPorts, InboundMTU |-> InboundMTU]))
+                                 PeerPorts |-> PeerPorts, QuotaDenied |-> QuotaDenied, InboundMTU |-> InboundMTU]))
 
 \* Engine A: print every edge of the state graph (also those into states already seen)
 EmitEdge ==
